@@ -503,6 +503,45 @@ theorem C01_certificate_coreSpec_case (core : Op → Contours → Contours → C
   exact C01_certificate_exact op (.poly s) (.poly c) (some (.poly (core op s c))) evs h p
     (by simpa [offBoundary, Operand.rings] using os) (by simpa [offBoundary, Operand.rings] using oc)
 
+/-! ## inclusion–exclusion, summed over weighted cells -/
+
+/-- total weight of the cells (sample point, weight) whose sample point satisfies `f`; with the
+cells of a slab decomposition weighted by their exact trapezoid areas this is the exact area of the
+region `{f}` (the region being a union of cells up to null sets) -/
+def areaOn (f : P → Bool) (cells : List (P × Rat)) : Rat :=
+  (cells.map fun c => if f c.1 then c.2 else 0).sum
+
+theorem areaOn_cons (f : P → Bool) (c : P × Rat) (cells : List (P × Rat)) :
+    areaOn f (c :: cells) = (if f c.1 then c.2 else 0) + areaOn f cells := by
+  simp [areaOn]
+
+/-- **C01, inclusion–exclusion (summed form).** Let the checker accept the implementation's four
+results `RI, RU, RD, RX` for the operands `A, B`.  Then for EVERY finite family of weighted points
+with clear margin from the input edges — in particular the cells of a common slab decomposition
+weighted by their exact areas — the weights satisfy `|A∪B| + |A∩B| = |A| + |B|`,
+`|A∖B| = |A| − |A∩B|`, `|AΔB| = |A∪B| − |A∩B|` exactly (in `Rat`).  No `CoreSpec` hypothesis: the
+premise is the per-case certificate. (Not formalised: that the cell sum equals the shoelace area.) -/
+theorem C01_inclusion_exclusion_cells (m : Rat) (A B : Operand) (RI RU RD RX : Option Operand)
+    (eI eU eD eX : List Rat)
+    (hI : certCheck m .inter A B RI eI = true) (hU : certCheck m .union A B RU eU = true)
+    (hD : certCheck m .diff A B RD eD = true) (hX : certCheck m .xor A B RX eX = true)
+    (cells : List (P × Rat))
+    (hc : ∀ c ∈ cells, clearOf m A.rings c.1 = true ∧ clearOf m B.rings c.1 = true) :
+    areaOn (memberRes RU) cells + areaOn (memberRes RI) cells = areaOn (member A) cells + areaOn (member B) cells ∧
+    areaOn (memberRes RD) cells = areaOn (member A) cells - areaOn (memberRes RI) cells ∧
+    areaOn (memberRes RX) cells = areaOn (memberRes RU) cells - areaOn (memberRes RI) cells := by
+  induction cells with
+  | nil => simp [areaOn]
+  | cons c cells ih =>
+    obtain ⟨i1, i2, i3⟩ := ih (fun c' hc' => hc c' (by simp [hc']))
+    obtain ⟨cA, cB⟩ := hc c (by simp)
+    have eI := C01_certificate_sound m .inter A B RI eI hI c.1 cA cB
+    have eU := C01_certificate_sound m .union A B RU eU hU c.1 cA cB
+    have eD := C01_certificate_sound m .diff A B RD eD hD c.1 cA cB
+    have eX := C01_certificate_sound m .xor A B RX eX hX c.1 cA cB
+    simp only [areaOn_cons, eI, eU, eD, eX]
+    cases member A c.1 <;> cases member B c.1 <;> simp [opBool] <;> refine ⟨?_, ?_, ?_⟩ <;> linarith
+
 /-! ## non-vacuity: the checker accepts concrete cases -/
 
 /-- unit square ∩ square (1/2,1/2)-(3/2,3/2) = square (1/2,1/2)-(1,1): accepted with margin 0, with
